@@ -57,13 +57,19 @@ func uniqueBodies(r *lib.Rand, n int, big bool) [][]byte {
 
 // publishAll sends the bodies through a random mix of front doors; every publish must be
 // acknowledged.  Returns the tags of the methods used.
-func publishAll(r *lib.Rand, d *nsqd.NSQD, topic string, bodies [][]byte, fw *featWalk) []string {
+func publishAll(r *lib.Rand, d *nsqd.NSQD, topic string, bodies [][]byte, fw *featWalk) ([]string, error) {
 	tcp := d.RealTCPAddr().String()
 	httpAddr := d.RealHTTPAddr().String()
 	used := map[string]bool{}
 	i := 0
 	var pc *client
 	var pf feat
+	var perr error
+	fail := func(format string, a ...interface{}) {
+		if perr == nil {
+			perr = fmt.Errorf(format, a...)
+		}
+	}
 	getProducer := func() *client {
 		if pc == nil {
 			pf = fw.next()
@@ -71,44 +77,51 @@ func publishAll(r *lib.Rand, d *nsqd.NSQD, topic string, bodies [][]byte, fw *fe
 			var err error
 			pc, err = dial(tcp, pf)
 			if err != nil {
-				lib.Fatalf("producer dial (%s): %v", pf.key(), err)
+				fail("producer dial (%s): %v", pf.key(), err)
+				return nil
 			}
 			used["producer:"+pf.comp()] = true
 			used[fmt.Sprintf("producer:tls=%v", pf.TLS)] = true
 		}
 		return pc
 	}
-	for i < len(bodies) {
+	for i < len(bodies) && perr == nil {
 		rest := len(bodies) - i
 		switch r.Intn(6) {
 		case 0: // TCP PUB
 			c := getProducer()
-			if err := c.send("PUB "+topic, bodies[i]); err != nil {
-				lib.Fatalf("PUB: %v", err)
+			if c == nil {
+				break
 			}
-			if err := c.expectResponse("OK"); err != nil {
-				lib.Fatalf("PUB: %v", err)
+			if err := c.send("PUB "+topic, bodies[i]); err != nil {
+				fail("PUB: %v", err)
+			} else if err := c.expectResponse("OK"); err != nil {
+				fail("PUB: %v", err)
 			}
 			used["pub=tcp-PUB"] = true
 			i++
 		case 1: // TCP MPUB
 			c := getProducer()
+			if c == nil {
+				break
+			}
 			k := 1 + r.Intn(rest)
 			if err := c.send("MPUB "+topic, encodeMPUB(bodies[i:i+k])); err != nil {
-				lib.Fatalf("MPUB: %v", err)
-			}
-			if err := c.expectResponse("OK"); err != nil {
-				lib.Fatalf("MPUB: %v", err)
+				fail("MPUB: %v", err)
+			} else if err := c.expectResponse("OK"); err != nil {
+				fail("MPUB: %v", err)
 			}
 			used["pub=tcp-MPUB"] = true
 			i += k
 		case 2: // TCP DPUB (a short deferral)
 			c := getProducer()
-			if err := c.send(fmt.Sprintf("DPUB %s %d", topic, 1+r.Intn(60)), bodies[i]); err != nil {
-				lib.Fatalf("DPUB: %v", err)
+			if c == nil {
+				break
 			}
-			if err := c.expectResponse("OK"); err != nil {
-				lib.Fatalf("DPUB: %v", err)
+			if err := c.send(fmt.Sprintf("DPUB %s %d", topic, 1+r.Intn(60)), bodies[i]); err != nil {
+				fail("DPUB: %v", err)
+			} else if err := c.expectResponse("OK"); err != nil {
+				fail("DPUB: %v", err)
 			}
 			used["pub=tcp-DPUB"] = true
 			i++
@@ -120,7 +133,7 @@ func publishAll(r *lib.Rand, d *nsqd.NSQD, topic string, bodies [][]byte, fw *fe
 			}
 			code, msg, err := httpPost(url, bodies[i], r.Chance(30))
 			if err != nil || code != 200 {
-				lib.Fatalf("/pub: %v %d %s", err, code, msg)
+				fail("/pub: %v %d %s", err, code, msg)
 			}
 			used["pub=http-pub"] = true
 			i++
@@ -140,7 +153,7 @@ func publishAll(r *lib.Rand, d *nsqd.NSQD, topic string, bodies [][]byte, fw *fe
 			// the loop above may have written a separator after the last body taken: fine
 			code, msg, err := httpPost("http://"+httpAddr+"/mpub?topic="+topic, buf.Bytes(), r.Chance(30))
 			if err != nil || code != 200 {
-				lib.Fatalf("text /mpub: %v %d %s", err, code, msg)
+				fail("text /mpub: %v %d %s", err, code, msg)
 			}
 			used["pub=http-mpub-text"] = true
 			i += k
@@ -148,7 +161,7 @@ func publishAll(r *lib.Rand, d *nsqd.NSQD, topic string, bodies [][]byte, fw *fe
 			k := 1 + r.Intn(rest)
 			code, msg, err := httpPost("http://"+httpAddr+"/mpub?topic="+topic+"&binary=true", encodeMPUB(bodies[i:i+k]), r.Chance(30))
 			if err != nil || code != 200 {
-				lib.Fatalf("binary /mpub: %v %d %s", err, code, msg)
+				fail("binary /mpub: %v %d %s", err, code, msg)
 			}
 			used["pub=http-mpub-binary"] = true
 			i += k
@@ -161,7 +174,7 @@ func publishAll(r *lib.Rand, d *nsqd.NSQD, topic string, bodies [][]byte, fw *fe
 	for t := range used {
 		tags = append(tags, t)
 	}
-	return tags
+	return tags, perr
 }
 
 // consumeRound: on one channel, take n messages; then either requeue them all (RDY 0
@@ -199,7 +212,7 @@ func consumeRound(addr string, f feat, topic, channel string, n int, finish bool
 	}
 	var raws [][]byte
 	for len(raws) < n || pendingOK > 0 {
-		ft, data, err := c.readFrame(90 * time.Second)
+		ft, data, err := c.readFrame(readDeadline)
 		if err != nil {
 			return raws, fmt.Errorf("after %d of %d messages: %v", len(raws), n, err)
 		}
@@ -282,8 +295,16 @@ func liveCase(in caseIn, name string, big bool) {
 		createChannel(d.RealHTTPAddr().String(), topic, fmt.Sprintf("ch%d", c))
 	}
 	tlo := time.Now().UnixNano() - 2e9
-	tags := publishAll(r, d, topic, bodies, fw)
+	tags, perr := publishAll(r, d, topic, bodies, fw)
 	thi := time.Now().UnixNano() + 2e9
+	if perr != nil {
+		// a publish was not acknowledged: nothing is consumed, the case is judged with no
+		// delivery at all (published bodies that no consumer received)
+		liveFailures++
+		tags = append(tags, "live=publish-failed")
+		out.Stat("live_publish_failed_"+name, perr.Error())
+		plan.k, plan.restartAt = 0, 0
+	}
 
 	type del struct {
 		ch  int
@@ -291,6 +312,7 @@ func liveCase(in caseIn, name string, big bool) {
 	}
 	var dels []del
 	restarted := false
+	incomplete := false
 	for round := 1; round <= plan.k; round++ {
 		for c := 0; c < plan.nchan; c++ {
 			f := fw.next()
@@ -308,9 +330,15 @@ func liveCase(in caseIn, name string, big bool) {
 			tags = append(tags, f.tags("consumer:")...)
 			if err != nil {
 				// an incomplete round is judged as it is (the monitor counts deliveries)
+				liveFailures++
 				tags = append(tags, "live=incomplete")
 				out.Stat("live_incomplete_"+name, err.Error())
+				incomplete = true
+				break
 			}
+		}
+		if incomplete {
+			break
 		}
 		if round == plan.restartAt && round < plan.k {
 			d.Exit()
@@ -323,6 +351,9 @@ func liveCase(in caseIn, name string, big bool) {
 	}
 	d.Exit()
 
+	if perr != nil {
+		plan.k = 1
+	}
 	tags = append(tags, "kind=live", fmt.Sprintf("memq=%d", plan.memq), fmt.Sprintf("nchan=%d", plan.nchan), fmt.Sprintf("deliveries_per_msg=%d", plan.k),
 		fmt.Sprintf("restart=%v", restarted), fmt.Sprintf("file_roll=%v", plan.rollBytes > 0), fmt.Sprintf("req_deferred=%v", plan.reqDelayMs > 0 && plan.k > 1))
 	if big {
